@@ -191,6 +191,36 @@ def run(ctx: Ctx):
             for f in FACT:
                 checks.append((f"crossratio(line3 pencil, vertex {V})", f,
                                lambda k=k, f=f, mkl=mkl: (np.array([g.crossratio(*mkl(k, f)), 1.0]), np.array([g.crossratio(*mkl(k, 1)), 1.0]))))
+    # conic constructors: one argument at a time rescaled (two conics pass through four points and touch a line: which of them
+    # is returned must not depend on the representatives); configurations in general position and with a side or diagonal of
+    # the quadrangle parallel to the tangent (an auxiliary point of the construction at infinity)
+    TANG = [((1, 2, -9), [(0, 0), (3, 1), (4, 3), (1, 2)]), ((0, 1, -1), [(-1.5, 0.5), (0, -1), (1.5, 0.5), (1.5, -0.5)]),
+            ((2, -1, 7), [(1, 1), (4, 0), (5, 3), (2, 5)]), ((1, 0, -5), [(0, 0), (0, 2), (3, 3), (2, -1)]),
+            ((1, 1, -10), [(0, 0), (2, -2), (4, 1), (1, 3)])]
+    for tl, pts in TANG:
+        def ft(k, f, tl=tl, pts=pts):
+            hp = [np.array(list(p) + [1.0]) * (f if i + 1 == k else 1) for i, p in enumerate(pts)]
+            return g.Conic.from_tangent(g.Line(np.array(tl, dtype=float) * (f if k == 0 else 1)), *[g.Point(h) for h in hp]).array
+        for k in range(5):
+            for f in FACT:
+                checks.append((f"Conic.from_tangent(tangent {tl}, {pts})/argument-{k}", f, lambda k=k, f=f, ft=ft: (ft(k, f), ft(k, 1))))
+    FIVE = [[(0, 0), (3, 1), (4, 3), (1, 2), (-1, 1)], [(1, 0), (0, 1), (-1, 0), (0, -1), (2, 2)], [(0, 0), (1, 1), (2, 4), (3, 9), (-1, 3)]]
+    for pts in FIVE:
+        def f5(k, f, pts=pts):
+            return g.Conic.from_points(*[g.Point(np.array(list(p) + [1.0]) * (f if i == k else 1)) for i, p in enumerate(pts)]).array
+        def fc(k, f, pts=pts):
+            return g.Conic.from_crossratio(0.3, *[g.Point(np.array(list(p) + [1.0]) * (f if i == k else 1)) for i, p in enumerate(pts[:4])]).array
+        for k in range(5):
+            for f in FACT:
+                checks.append((f"Conic.from_points({pts})/argument-{k}", f, lambda k=k, f=f, f5=f5: (f5(k, f), f5(k, 1))))
+                if k < 4:
+                    checks.append((f"Conic.from_crossratio({pts[:4]})/argument-{k}", f, lambda k=k, f=f, fc=fc: (fc(k, f), fc(k, 1))))
+    for f1, f2, b in (((0, 0), (4, 0), (2, 3)), ((1, 1), (3, 5), (0, 4)), ((-2, 1), (2, 1), (0, 1.5))):
+        def ff(k, f, f1=f1, f2=f2, b=b):
+            return g.Conic.from_foci(*[g.Point(np.array(list(p) + [1.0]) * (f if i == k else 1)) for i, p in enumerate((f1, f2, b))]).array
+        for k in range(3):
+            for f in FACT:
+                checks.append((f"Conic.from_foci({f1}, {f2}, {b})/argument-{k}", f, lambda k=k, f=f, ff=ff: (ff(k, f), ff(k, 1))))
     for name, f, fn in checks:
         n_cases += 1
         stratum = "integer-representative" if "integer-representative" in name else ("negative-factor" if f < 0 else "positive-factor")
